@@ -17,7 +17,7 @@ class C10(Prop):
     assumptions = ["nx.enumerate_all_cliques returns every clique of the graph (validated per instance against the model's brute-force allCliques)",
                    "random.shuffle is the CPython Fisher-Yates body, executed for real on scripted draws"]
     model_scope = "modelled: covers/mpcc.py in full, given the post-shuffle clique list"
-    budgets = {"quick": 200, "thorough": 3000}
+    budgets = {"quick": 200, "thorough": 10000}
     search_budget = {"quick": 500, "thorough": 4000}
 
     def gen(self, rng, i, tier):
